@@ -139,6 +139,15 @@ func checkFullReadBeforeReturn(p *Program, r *Result, fn *ssa.Function, dataIdx,
 				}
 			}
 		}
+		// ... or to a helper that hands the filled slice back: each of its returns with a nil error and a slice must
+		// itself come after a full read into that slice
+		if ex, ok := data.(*ssa.Extract); ok && !okRead {
+			if call, ok := ex.Tuple.(*ssa.Call); ok && instrDominates(call, ret) {
+				if g := call.Call.StaticCallee(); g != nil && p.transparent(g) && helperReturnsFullyRead(p, g, ex.Index, 0) {
+					okRead = true
+				}
+			}
+		}
 		if okRead {
 			r.held("C09.b", fname, construct, p.pos(ret.Pos()), "dominated by io.ReadFull into the returned slice")
 		} else {
@@ -180,4 +189,40 @@ func helperFullyReads(g *ssa.Function, prm *ssa.Parameter) bool {
 		}
 	}
 	return true
+}
+
+// helperReturnsFullyRead: every return of g with a nil error and a non-nil slice at result k is dominated by an
+// io.ReadFull into that slice (directly, or through a further helper).
+func helperReturnsFullyRead(p *Program, g *ssa.Function, k int, depth int) bool {
+	res := g.Signature.Results()
+	if g.Blocks == nil || k >= res.Len() || res.Len() < 2 || !isErrorType(res.At(res.Len()-1).Type()) || depth > 2 {
+		return false
+	}
+	errIdx := res.Len() - 1
+	n := 0
+	for _, in := range instrsOf(g) {
+		ret, ok := in.(*ssa.Return)
+		if !ok || !isNilConst(ret.Results[errIdx]) || isNilConst(ret.Results[k]) {
+			continue
+		}
+		n++
+		data := ret.Results[k]
+		okRead := false
+		for _, ci := range callsIn(g, func(ci ssa.CallInstruction) bool { return calleeIs(ci, "io.ReadFull") }) {
+			if sameOrPhi(ci.Common().Args[1], data) && instrDominates(ci, ret) {
+				okRead = true
+			}
+		}
+		if ex, ok := data.(*ssa.Extract); ok && !okRead {
+			if call, ok := ex.Tuple.(*ssa.Call); ok && instrDominates(call, ret) {
+				if h := call.Call.StaticCallee(); h != nil && p.transparent(h) && helperReturnsFullyRead(p, h, ex.Index, depth+1) {
+					okRead = true
+				}
+			}
+		}
+		if !okRead {
+			return false
+		}
+	}
+	return n > 0
 }
